@@ -38,16 +38,17 @@ type site struct {
 }
 
 type report struct {
-	Module      string   `json:"module"`
-	Sites       []site   `json:"sites"`
-	Yields      int      `json:"yields"`
-	MapRanges   int      `json:"map_ranges"`
-	GoStmts     []string `json:"go_stmts"`
-	ChanOps     []string `json:"chan_ops"`
-	ReflectMaps []string `json:"reflect_map_iter"`
-	Shimmed     []string `json:"shimmed_imports"`
-	Unshimmed   []string `json:"unshimmed_imports"` // nondeterminism sources with no seam
-	Packages    []string `json:"packages"`
+	Module        string   `json:"module"`
+	Sites         []site   `json:"sites"`
+	Yields        int      `json:"yields"`
+	MapRanges     int      `json:"map_ranges"`
+	GoStmts       []string `json:"go_stmts"`
+	ChanOps       []string `json:"chan_ops"` // select / range over channel: not owned by the simulator
+	ChanRewritten int      `json:"chan_rewritten"`
+	ReflectMaps   []string `json:"reflect_map_iter"`
+	Shimmed       []string `json:"shimmed_imports"`
+	Unshimmed     []string `json:"unshimmed_imports"` // nondeterminism sources with no seam
+	Packages      []string `json:"packages"`
 }
 
 type splice struct {
@@ -206,6 +207,36 @@ func main() {
 					add(s.Pos(), "stmt")
 				}
 			}
+			commaOK := map[*ast.UnaryExpr]bool{}
+			inSelect := map[ast.Node]bool{}
+			ast.Inspect(f, func(n ast.Node) bool {
+				switch n := n.(type) {
+				case *ast.AssignStmt:
+					if len(n.Lhs) == 2 && len(n.Rhs) == 1 {
+						if u, ok := n.Rhs[0].(*ast.UnaryExpr); ok && u.Op == token.ARROW {
+							commaOK[u] = true
+						}
+					}
+				case *ast.ValueSpec:
+					if len(n.Names) == 2 && len(n.Values) == 1 {
+						if u, ok := n.Values[0].(*ast.UnaryExpr); ok && u.Op == token.ARROW {
+							commaOK[u] = true
+						}
+					}
+				case *ast.CommClause:
+					if n.Comm != nil {
+						ast.Inspect(n.Comm, func(m ast.Node) bool {
+							if m != nil {
+								inSelect[m] = true
+							}
+							// only the communication itself, not nested function literals
+							_, isLit := m.(*ast.FuncLit)
+							return !isLit
+						})
+					}
+				}
+				return true
+			})
 			var visit func(n ast.Node) bool
 			visit = func(n ast.Node) bool {
 				switch n := n.(type) {
@@ -261,10 +292,24 @@ func main() {
 				case *ast.GoStmt:
 					rep.GoStmts = append(rep.GoStmts, fmt.Sprintf("%s:%d", relFile, line(n.Pos())))
 				case *ast.SendStmt:
-					rep.ChanOps = append(rep.ChanOps, fmt.Sprintf("%s:%d send", relFile, line(n.Pos())))
+					if inSelect[n] {
+						break
+					}
+					rep.ChanRewritten++
+					sp = append(sp, splice{off: off(n.Chan.Pos()), text: "simrt.Send("})
+					sp = append(sp, splice{off: off(n.Arrow), end: off(n.Arrow) + 2, text: ","})
+					sp = append(sp, splice{off: off(n.Value.End()), text: ")"})
+					used = true
 				case *ast.UnaryExpr:
-					if n.Op == token.ARROW {
-						rep.ChanOps = append(rep.ChanOps, fmt.Sprintf("%s:%d receive", relFile, line(n.Pos())))
+					if n.Op == token.ARROW && !inSelect[n] {
+						rep.ChanRewritten++
+						name := "simrt.Recv("
+						if commaOK[n] {
+							name = "simrt.Recv2("
+						}
+						sp = append(sp, splice{off: off(n.OpPos), end: off(n.OpPos) + 2, text: name})
+						sp = append(sp, splice{off: off(n.X.End()), text: ")"})
+						used = true
 					}
 				case *ast.SelectorExpr:
 					if sel, ok := info.Selections[n]; ok && sel.Obj() != nil && sel.Obj().Pkg() != nil && sel.Obj().Pkg().Path() == "reflect" {
